@@ -11,7 +11,7 @@ CHUNK = 2
 CASE_TIMEOUT = 900
 REQUIRED_COUNTERS = ["pairs_compared"]
 RULE = ("metamorphic pairs (spec, spec with one relaxation): larger inner memory (x2, x4, inf), smaller keep set / larger "
-        "may_keep set, max_fused_loops raised, max_fused_loops_per_rank_variable raised, imperfect factorisation enabled, "
+        "may_keep set, max_fused_loops raised, max_fused_loops_per_rank_variable raised, imperfect factorisation enabled (square and composite bounds on tight buffers), "
         "loop_bounds constraint removed / min_usage lowered on a spatial fanout (spatial class); for ENERGY, LATENCY and "
         "EDP the relaxed optimum must be <= the original (float32 tolerance); a spec that maps while its relaxation does "
         "not is a violation. non-trivial = both sides map and the relaxation is not vacuous for the class; distinct = "
